@@ -32,7 +32,8 @@ Record region := mkRegion {
   r_peers : list peer; r_work : nat;          (* workTiKVIdx *)
   r_expired : bool;                           (* ts > ttl (TTL run out or invalidated) *)
   r_reason : N;                               (* invalidReason: 0 Ok 1 NoLeader 2 RegionNotFound 3 EpochNotMatch 4 StoreNotFound 5 Other *)
-  r_reload : bool; r_pending : bool; r_ready : bool (* needReloadOnAccess, needDelayedReloadPending, needDelayedReloadReady *) }.
+  r_reload : bool; r_pending : bool; r_ready : bool; (* needReloadOnAccess, needDelayedReloadPending, needDelayedReloadReady *)
+  r_sepochs : list N                          (* regionStore.storeEpochs: the store fail-epochs seen when the entry was made *) }.
 
 Definition r_verid (r : region) : verid := (r_id r, r_ver r, r_conf r).
 Definition r_contains (r : region) k := contains (r_start r) (r_end r) k.
@@ -41,8 +42,9 @@ Definition r_contains_end (r : region) k := contains_by_end (r_start r) (r_end r
 Record cache := mkCache {
   c_sorted : list region;               (* ascending by start key, start keys distinct *)
   c_regions : list (verid * bytes);     (* mu.regions: verid -> the entry (named by its start key) *)
-  c_latest : list (N * (N * N)) }.      (* mu.latestVersions: id -> (ver, conf) *)
-Definition empty_cache := mkCache [] [] [].
+  c_latest : list (N * (N * N));        (* mu.latestVersions: id -> (ver, conf) *)
+  c_sepochs : list (N * N) }.           (* Store.epoch per store id (absent = 0): bumped by a send failure *)
+Definition empty_cache := mkCache [] [] [] [].
 
 (* ---- small assoc helpers ---- *)
 Fixpoint lat_get (id : N) (l : list (N * (N * N))) : option (N * N) :=
@@ -141,14 +143,22 @@ Definition insert_region (c : cache) (r : region) : bool * cache :=
                 | old :: _ => if r_reason old =? 1
                               then mkRegion (r_id r) (r_start r) (r_end r) (r_ver r) (r_conf r) (r_peers r)
                                      (Nat.modulo (S (r_work old)) (length (r_peers r)))
-                                     (r_expired r) (r_reason r) (r_reload r) (r_pending r) (r_ready r)
+                                     (r_expired r) (r_reason r) (r_reload r) (r_pending r) (r_ready r) (r_sepochs r)
                               else r
                 | [] => r
                 end in
       let '(regs, lat) := fold_left (fun acc d => remove_version (r_verid d) (fst acc) (snd acc)) deleted (c_regions c, c_latest c) in
-      (true, mkCache (ins_sorted r1 l1) (reg_set (r_verid r1) (r_start r1) regs) (lat_set (r_id r1) (r_ver r1, r_conf r1) lat)).
+      (true, mkCache (ins_sorted r1 l1) (reg_set (r_verid r1) (r_start r1) regs) (lat_set (r_id r1) (r_ver r1, r_conf r1) lat) (c_sepochs c)).
 
-Definition insert_all (c : cache) (rs : list region) : cache := fold_left (fun c r => snd (insert_region c r)) rs c.
+(* newRegion records the current fail-epoch of every peer's store; the model does it when the fresh region is handed
+   to the cache (nothing can happen in between) *)
+Fixpoint store_epoch (se : list (N * N)) (st : N) : N :=
+  match se with [] => 0 | (s, e) :: t => if s =? st then e else store_epoch t st end.
+Definition stamp (se : list (N * N)) (r : region) : region :=
+  mkRegion (r_id r) (r_start r) (r_end r) (r_ver r) (r_conf r) (r_peers r) (r_work r) (r_expired r) (r_reason r)
+           (r_reload r) (r_pending r) (r_ready r) (map (fun p : peer => store_epoch se (snd p)) (r_peers r)).
+Definition insert_new (c : cache) (r : region) : bool * cache := insert_region c (stamp (c_sepochs c) r).
+Definition insert_all (c : cache) (rs : list region) : cache := fold_left (fun c r => snd (insert_new c r)) rs c.
 
 (* ---- entries addressed through mu.regions ---- *)
 Definition entry_at (c : cache) (s : bytes) (v : verid) : option region :=
@@ -157,22 +167,28 @@ Definition get_by_verid (c : cache) (v : verid) : option region :=
   match reg_get v (c_regions c) with Some s => entry_at c s v | None => None end.
 Definition upd_entry (c : cache) (r : region) (f : region -> region) : cache :=
   mkCache (map (fun x => if bytes_eqb (r_start x) (r_start r) && verid_eqb (r_verid x) (r_verid r) then f x else x) (c_sorted c))
-          (c_regions c) (c_latest c).
+          (c_regions c) (c_latest c) (c_sepochs c).
 
 Definition set_flags (rl pe rd : region -> bool) (r : region) : region :=
-  mkRegion (r_id r) (r_start r) (r_end r) (r_ver r) (r_conf r) (r_peers r) (r_work r) (r_expired r) (r_reason r) (rl r) (pe r) (rd r).
+  mkRegion (r_id r) (r_start r) (r_end r) (r_ver r) (r_conf r) (r_peers r) (r_work r) (r_expired r) (r_reason r) (rl r) (pe r) (rd r) (r_sepochs r).
 Definition clear_access_flags := set_flags (fun _ => false) r_pending (fun _ => false).
 Definition set_reload := set_flags (fun _ => true) r_pending r_ready.
 Definition set_ready := set_flags r_reload r_pending (fun _ => true).
 Definition set_work (w : nat) (r : region) : region :=
-  mkRegion (r_id r) (r_start r) (r_end r) (r_ver r) (r_conf r) (r_peers r) w (r_expired r) (r_reason r) (r_reload r) (r_pending r) (r_ready r).
+  mkRegion (r_id r) (r_start r) (r_end r) (r_ver r) (r_conf r) (r_peers r) w (r_expired r) (r_reason r) (r_reload r) (r_pending r) (r_ready r) (r_sepochs r).
+(* switchWorkLeaderToPeer: the new work peer's store epoch is read afresh *)
+Fixpoint set_nth (i : nat) (v : N) (l : list N) : list N :=
+  match l, i with [], _ => [] | _ :: t, O => v :: t | x :: t, S j => x :: set_nth j v t end.
+Definition switch_work (se : list (N * N)) (i : nat) (r : region) : region :=
+  mkRegion (r_id r) (r_start r) (r_end r) (r_ver r) (r_conf r) (r_peers r) i (r_expired r) (r_reason r) (r_reload r) (r_pending r) (r_ready r)
+           (set_nth i (store_epoch se (snd (nth i (r_peers r) (0, 0)))) (r_sepochs r)).
 (* Region.invalidate: only the first reason sticks *)
 Definition invalidate_r (reason : N) (r : region) : region :=
   if r_reason r =? 0 then
-    mkRegion (r_id r) (r_start r) (r_end r) (r_ver r) (r_conf r) (r_peers r) (r_work r) true reason (r_reload r) (r_pending r) (r_ready r)
+    mkRegion (r_id r) (r_start r) (r_end r) (r_ver r) (r_conf r) (r_peers r) (r_work r) true reason (r_reload r) (r_pending r) (r_ready r) (r_sepochs r)
   else r.
 Definition expire_r (r : region) : region :=
-  mkRegion (r_id r) (r_start r) (r_end r) (r_ver r) (r_conf r) (r_peers r) (r_work r) true (r_reason r) (r_reload r) (r_pending r) (r_ready r).
+  mkRegion (r_id r) (r_start r) (r_end r) (r_ver r) (r_conf r) (r_peers r) (r_work r) true (r_reason r) (r_reload r) (r_pending r) (r_ready r) (r_sepochs r).
 
 (* newRegion: every peer is available in the modelled setting (no tombstone / down / witness peers) *)
 Fixpoint last_idx (p : peer) (l : list peer) (i : nat) (acc : nat) : nat :=
@@ -181,7 +197,7 @@ Fixpoint first_idx (p : peer) (l : list peer) (i : nat) : option nat :=
   match l with [] => None | q :: t => if peer_eqb q p then Some i else first_idx p t (S i) end.
 Definition new_region (d : desc) : region :=
   mkRegion (d_id d) (d_start d) (d_end d) (d_ver d) (d_conf d) (d_peers d)
-           (last_idx (d_leader d) (d_peers d) 0 0) false 0 false false false.
+           (last_idx (d_leader d) (d_peers d) 0 0) false 0 false false false [].
 
 (* ---- PD oracle ---- *)
 Inductive pd_req :=
@@ -325,11 +341,11 @@ Definition find_region_by_key (fuel t : nat) (c : cache) (key : bytes) (is_end :
     match load_region fuel t key is_end false with
     | (Err e, t1) => (Err e, c, t1)
     | (Ok lr, t1) =>
-        let '(ok, c1) := insert_region c lr in
+        let '(ok, c1) := insert_new c lr in
         if ok then (Ok lr, c1, t1)
         else match load_region fuel t1 key is_end false with
              | (Err e, t2) => (Err e, c1, t2)
-             | (Ok lr2, t2) => (Ok lr2, snd (insert_region c1 lr2), t2)
+             | (Ok lr2, t2) => (Ok lr2, snd (insert_new c1 lr2), t2)
              end
     end in
   match search (c_sorted c) key is_end with
@@ -340,7 +356,7 @@ Definition find_region_by_key (fuel t : nat) (c : cache) (key : bytes) (is_end :
         let c1 := upd_entry c r clear_access_flags in
         match load_region fuel t key is_end false with
         | (Err _, t1) => (Ok r, upd_entry c1 r set_reload, t1)
-        | (Ok lr, t1) => (Ok lr, snd (insert_region c1 lr), t1)
+        | (Ok lr, t1) => (Ok lr, snd (insert_new c1 lr), t1)
         end
       else (Ok r, c, t)
   end.
@@ -363,7 +379,7 @@ Definition search_by_id (c : cache) (id : N) : option region :=
 Definition locate_by_id (t : nat) (c : cache) (id : N) : res region * cache * nat :=
   let miss := fun _ : unit => match load_by_id t id with
               | (Err e, t1) => (Err e, c, t1)
-              | (Ok lr, t1) => (Ok lr, snd (insert_region c lr), t1)
+              | (Ok lr, t1) => (Ok lr, snd (insert_new c lr), t1)
               end in
   match search_by_id c id with
   | Some r =>
@@ -372,7 +388,7 @@ Definition locate_by_id (t : nat) (c : cache) (id : N) : res region * cache * na
         let c1 := upd_entry c r clear_access_flags in
         match load_by_id t id with
         | (Err _, t1) => (Ok r, upd_entry c1 r set_reload, t1)
-        | (Ok lr, t1) => (Ok lr, snd (insert_region c1 lr), t1)
+        | (Ok lr, t1) => (Ok lr, snd (insert_new c1 lr), t1)
         end
       else (Ok r, c, t)
   | None => miss tt
@@ -581,17 +597,39 @@ Definition update_leader (c : cache) (v : verid) (leader : option peer) (cur : n
       match leader with
       | None => if Nat.eqb (r_work r) cur then upd_entry c r (set_work (Nat.modulo (S cur) (length (r_peers r)))) else c
       | Some p => match first_idx p (r_peers r) 0 with
-                  | Some i => upd_entry c r (set_work i)
+                  | Some i => if Nat.eqb (r_work r) i then c else upd_entry c r (switch_work (c_sepochs c) i)
                   | None => upd_entry c r (invalidate_r 4)
                   end
       end
   end.
 
-(* GetTiKVRPCContext for a leader read: the entry must be usable; returns it with its work peer *)
-Definition rpc_ctx (c : cache) (v : verid) : option (region * peer) :=
+(* GetTiKVRPCContext for a leader read: the entry must be usable and nobody may have failed on the work peer's store
+   since the entry recorded that store's epoch (else the entry is invalidated); returns it with its work peer *)
+Definition rpc_ctx (c : cache) (v : verid) : option (region * peer) * cache :=
   match get_by_verid c v with
-  | Some r => if r_reload r || r_expired r then None else Some (r, nth (r_work r) (r_peers r) (0, 0))
-  | None => None
+  | Some r =>
+      if r_reload r || r_expired r then (None, c)
+      else let p := nth (r_work r) (r_peers r) (0, 0) in
+           if store_epoch (c_sepochs c) (snd p) =? nth (r_work r) (r_sepochs r) 0 then (Some (r, p), c)
+           else (None, upd_entry c r (invalidate_r 5))
+  | None => (None, c)
+  end.
+
+(* OnSendFail with an error: bump the store's fail-epoch if the entry still has the current one, try the next peer,
+   optionally ask for a reload *)
+Fixpoint se_set (st : N) (e : N) (se : list (N * N)) : list (N * N) :=
+  match se with [] => [(st, e)] | (s, x) :: t => if s =? st then (s, e) :: t else (s, x) :: se_set st e t end.
+Definition on_send_fail (c : cache) (v : verid) (idx : nat) (reload : bool) : cache :=
+  match get_by_verid c v with
+  | None => c
+  | Some r =>
+      let st := snd (nth idx (r_peers r) (0, 0)) in
+      let rec_e := nth idx (r_sepochs r) 0 in
+      let se' := if store_epoch (c_sepochs c) st =? rec_e then se_set st (rec_e + 1) (c_sepochs c) else c_sepochs c in
+      let f := fun x => let x1 := if Nat.eqb (r_work x) idx then set_work (Nat.modulo (S idx) (length (r_peers x))) x else x in
+                        if reload then set_reload x1 else x1 in
+      let c1 := upd_entry c r f in
+      mkCache (c_sorted c1) (c_regions c1) (c_latest c1) se'
   end.
 
 (* OnRegionEpochNotMatch: (retry-after-back-off?, cache) *)
@@ -619,4 +657,4 @@ Definition on_epoch_not_match (c : cache) (v : verid) (ctx_store : N) (cur : lis
 Definition gc (c : cache) : cache :=
   let dead := filter r_expired (c_sorted c) in
   let '(regs, lat) := fold_left (fun acc d => remove_version (r_verid d) (fst acc) (snd acc)) dead (c_regions c, c_latest c) in
-  mkCache (map (fun r => if r_ready r then r else if r_pending r then set_ready r else r) (filter (fun r => negb (r_expired r)) (c_sorted c))) regs lat.
+  mkCache (map (fun r => if r_ready r then r else if r_pending r then set_ready r else r) (filter (fun r => negb (r_expired r)) (c_sorted c))) regs lat (c_sepochs c).
